@@ -179,6 +179,8 @@ package twig
 //@ func (*IncludeNode).Render props: C17 C11
 //@   flag rely_tree yes
 //@   atcall Node.Render a2 != ctx && freshRef(a2)
+//@   atcall Node.Render n.only ==> a2.parent == nil
+//@   atcall Node.Render !n.only && !n.sandboxed ==> a2.parent == ctx
 //@   atcall (*RenderContext).SetVariable a0 != ctx && freshRef(a0)
 //@   atcall (*RenderContext).EvaluateExpression a0 == ctx
 //@   flag errretry (*Engine).Load
